@@ -1,5 +1,6 @@
 (* C04 — user data is rendered from its content or preserved byte-for-byte as a hex dump. *)
 From Coq Require Import List NArith ZArith Bool Arith.
+From PV Require Base.Utf8.
 From PV Require Import Base.Bytes Base.Lit Base.Json Base.PelTypes Model.Hexdump Model.Parse Model.Render Spec.Encode Gen.Tables
                        Proofs.HexdumpRoundtrip Proofs.RenderFacts Proofs.UdFacts
                        Model.Pretty Model.JsonLoads Proofs.JsonLoadsFacts.
@@ -56,8 +57,22 @@ Theorem C04_builtin_json : forall e c h cr txt,
 Proof. exact builtin_json_spec. Qed.
 Print Assumptions C04_builtin_json.
 
+(* the same for any UTF-8 payload b, the encoding of a text t that carries no surrounding blanks or trailing NULs *)
+Theorem C04_builtin_json_utf8 : forall e c h cr t b,
+  (is_bmc cr && (h_comp h =? 8192)) = true -> h_sub h = UserDataFormat_json ->
+  Utf8.utf8_encode t = Some b -> strip_ws t = t -> rstrip_nul t = t ->
+  render_ud e c h cr b =
+    match loads t with
+    | LOk (JObj l) => Some (obj_update (base_fields e h cr (L "Created by")) l)
+    | LOk j => Some (obj_set (base_fields e h cr (L "Created by")) (L "Data") j)
+    | LError => Some (obj_set (base_fields e h cr (L "Created by")) (L "Data") (jstrs (hexdump b)))
+    | LBeyond => Some (base_fields e h cr (L "Created by") ++ [(L "@loads", JStr t); (L "@fallback", jstrs (hexdump b))])
+    end.
+Proof. exact builtin_json_utf8. Qed.
+Print Assumptions C04_builtin_json_utf8.
+
 (* "appears as that same JSON value": whatever JSON text of the value j the section holds (any placement of blanks: its token
-   sequence is that of j), for every value without floats, with scalar-value strings, distinct keys within an object, integer
+   sequence is that of j), for every value without floats, with strings Python round-trips (code points below 0x110000, no high surrogate directly followed by a low one - lone surrogates are fine), distinct keys within an object, integer
    literals within the digit limit and nesting within depth_limit, the section shows j itself *)
 Theorem C04_builtin_json_value : forall e c h cr txt j,
   (is_bmc cr && (h_comp h =? 8192)) = true -> h_sub h = UserDataFormat_json ->
